@@ -174,7 +174,13 @@ var errSigner = errors.New("zzverif: signer failed")
 // that is identifiable as a signing failure and still wraps the signer's error.
 func verifSignFailure(format string) {
 	sc := scen.Payload(scen.Options{})
-	fn := func(r io.Reader) ([]byte, error) { return nil, errSigner }
+	// the signer's own error: a plain one, or one that wraps a signing failure of
+	// its own below its identifying error (a callback built on nfpm's signer)
+	var signerErr error = errSigner
+	if v.NondetBool("signer.error.wraps.a.signing.failure") {
+		signerErr = &verifRemoteError{inner: &nfpm.ErrSigningFailure{Err: errors.New("inner")}}
+	}
+	fn := func(r io.Reader) ([]byte, error) { return nil, signerErr }
 	sc.Info.Deb.Signature.SignFn = fn
 	if format == "deb" && v.NondetBool("dpkg-sig") {
 		sc.Info.Deb.Signature.Method = "dpkg-sig"
@@ -191,8 +197,14 @@ func verifSignFailure(format string) {
 	}
 	var sf *nfpm.ErrSigningFailure
 	v.Assert(errors.As(err, &sf), format+"-signer-failure-is-identifiable-as-signing-failure")
-	v.Assert(errors.Is(err, errSigner), "signing-failure-wraps-signer-error")
+	v.Assert(errors.Is(err, signerErr), "signing-failure-wraps-signer-error")
 }
+
+// verifRemoteError is a signer's own error type with something wrapped below it.
+type verifRemoteError struct{ inner error }
+
+func (e *verifRemoteError) Error() string { return "remote signer: " + e.inner.Error() }
+func (e *verifRemoteError) Unwrap() error { return e.inner }
 
 func Verif_C10_SignFailure_Deb() { verifSignFailure("deb") }
 func Verif_C10_SignFailure_Rpm() { verifSignFailure("rpm") }
